@@ -41,7 +41,7 @@ def queries():
             q2.extra_srcs = ["@wd/c10_shims.c"]
             q2.defs = dict(q.defs, VERIF_CONTRACTS=None)
             q2.tier = "quick" if (quick and q.tier == "quick") else "thorough"
-            q2.nowitness = True
+            q2.nowitness = q.nowitness or (q2.tier != "quick")
             q2.instr = list(q.instr)
             q2.unwindset = list(q.unwindset) + ["real_" + u for u in q.unwindset]
             qs.append(q2)
@@ -53,6 +53,6 @@ def queries():
             q2.name = "tags-" + mod.__name__.split(".")[-1] + "-" + q.name
             q2.defs = dict(q.defs, VERIF_LOCK_TAGS=None)
             q2.tier = "quick" if (pick(q) and q.tier == "quick" and mod is not c03) or (mod is c03 and q.name in ("step0-r1-h1", "step1-r2-h1", "step1-r3-h2")) else "thorough"
-            q2.nowitness = True
+            q2.nowitness = q.nowitness or (q2.tier != "quick")
             qs.append(q2)
     return qs
